@@ -71,6 +71,10 @@ def check(ctx: Ctx) -> None:
         for (pth, st) in evs.run(limit=4000):
             mt = st.known.get(MT)
             if mt is None:
+                # keyed on the event's presence instead (serve() creates it iff the backend is main_thread_only: C14.d)
+                evnone = st.known.get(("cmp", "is", ("sym", EV), ("const", None)))
+                mt = None if evnone is None else (not evnone)
+            if mt is None:
                 if any(e.kind == "call" and e.attr == "spawn" for e in st.events):
                     ob.violation(fs, fs.node, "a task is spawned without testing for the main_thread_only backend")
                 continue
@@ -165,15 +169,30 @@ def check(ctx: Ctx) -> None:
     fv = repo.func("gateway_base.WorkerGateway.serve")
     cfgv = build_cfg(repo, fv, Oracle(repo, fv, precise=True))
     with ctx.obligation("C14.d", "event-initially-set") as ob:
-        sets = cfg_nodes_with_call(cfgv, lambda c: _is_evt_call(c, "set"))
-        inits = cfg_nodes_with_call(cfgv, lambda c: callee_attr(c) == "_initreceive")
-        ob.require(bool(inits), "_initreceive anchor missing in serve")
-        mt = [n for n in cfgv.nodes if n.kind == "test" and "main_thread_only" in unparse(n.ast)]
-        ob.require(bool(mt), "main_thread_only test missing in serve")
-        for t in mt:
-            starts = [m for (m, lab) in cfgv.succ[t.id] if lab == "true"]
-            p = cfgv.must_pass(starts, [i.id for i in inits], {s.id for s in sets})
-            ob.site(fv, t.ast, "main_thread_only: event.set() before _initreceive()")
-            if p is not None:
-                ob.violation(fv, t.ast, "the completion event is not set before the receiver thread starts: the first "
-                                        "remote_exec would be answered with the deadlock error", path=cfgv.describe_path(p))
+        from ..terms import const as _c, evaluator as _ev
+        evv = _ev(repo, fv)
+        EVK = f"self.{EVT}"
+        ninit = nmt = 0
+        for (pth, st) in evv.run(limit=20000):
+            calls = [e for e in st.events if e.kind == "call"]
+            inits = [e for e in calls if e.callee == "self._initreceive"]
+            if not inits:
+                continue
+            ninit += 1
+            mts = [v for (t, v) in st.cond[:inits[0].ncond] if t[0] == "cmp" and t[1] == "eq" and t[3] == _c("main_thread_only")]
+            if not mts:
+                continue
+            stored = [e for e in st.events if e.kind == "assign" and e.target == EVK and st.events.index(e) < st.events.index(inits[0])]
+            val = stored[-1].value if stored else None
+            if mts[-1] is True:
+                nmt += 1
+                ok = val is not None and val[0] == "fresh" and any(e.attr == "set" and e.recv == val and calls.index(e) < calls.index(inits[0]) for e in calls)
+                ob.site(fv, inits[0].node, "main_thread_only: event created, set() and published before _initreceive()", ok=ok)
+                if not ok:
+                    ob.violation(fv, inits[0].node, "the completion event is not set before the receiver thread starts: the first "
+                                                    "remote_exec would be answered with the deadlock error", path=evv.cfg.describe_path(pth))
+            elif val is not None and val != ("const", None):
+                ob.violation(fv, inits[0].node, "a completion event is created for an execmodel other than main_thread_only")
+        ob.require(ninit >= 1, "_initreceive anchor missing in serve")
+        if nmt == 0:
+            ob.violation(fv, fv.node, "serve() does not distinguish the main_thread_only backend before starting the receiver", construct="main_thread_only test missing in serve")
